@@ -1122,7 +1122,243 @@ def run_usb(c: dict):
     raise ValueError(f"unknown usbtmc case kind {kind}")
 
 
+# ---------------------------------------------------------------------------
+# SCPI over the REAL transport classes (qmi/core/transport*.py), reply cut into recv results at chosen byte boundaries
+# ---------------------------------------------------------------------------
+
+_REAL = {}
+
+
+def _real_env():
+    """PieceDevice (a c19_endpoints.Device whose pending input is a queue of pieces: one recv / read / device_read hands
+    out at most one piece) and the context manager that puts the real transports on it, with a virtual clock."""
+    if _REAL:
+        return _REAL
+    from harness import c19_endpoints as E
+
+    class PieceDevice(E.Device):
+        def __init__(self):
+            self.pieces = []             # list[bytearray], oldest first
+            super().__init__(None)
+            self.tx = bytearray()
+            self.next_reply = []         # pieces the device sends once it has seen the next write
+            self.budget = 20000
+
+        @property
+        def rx(self):
+            while self.pieces and not self.pieces[0]:
+                self.pieces.pop(0)
+            if not self.pieces:
+                self.pieces.append(bytearray())
+            return self.pieces[0]
+
+        @rx.setter
+        def rx(self, v):
+            self.pieces = [bytearray(v)] if v else []
+
+        def connected(self, key):
+            self.links.add(key)
+
+        def written(self, data):
+            self.tx += bytes(data)
+            self.pieces += [bytearray(x) for x in self.next_reply]
+            self.next_reply = []
+
+        def take(self, n):
+            head = self.rx
+            out = bytes(head[:n])
+            del head[:n]
+            return out
+
+        def pending(self):
+            return b"".join(bytes(x) for x in self.pieces)
+
+    class _Clock:
+        """virtual `time` for qmi.core.transport: every look at the clock costs 1 ms, nobody sleeps"""
+        def __init__(self):
+            self.t = 1000.0
+
+        def monotonic(self):
+            self.t += 0.001
+            return self.t
+
+        def time(self):
+            return self.monotonic()
+
+        def sleep(self, dt):
+            self.t += max(dt, 0)
+
+    class Env(E.Patched):
+        def __enter__(self):
+            super().__enter__()
+            import qmi.core.transport as T0
+            self._set(T0, "time", _Clock())
+            return self
+
+    _REAL.update(E=E, PieceDevice=PieceDevice, Env=Env)
+    return _REAL
+
+
+def _cut(stream: bytes, cuts) -> list:
+    """the stream as the pieces between the cut positions (every piece non-empty)"""
+    pos = sorted({k for k in cuts if 0 < k < len(stream)})
+    out, a = [], 0
+    for k in pos + [len(stream)]:
+        out.append(stream[a:k])
+        a = k
+    return [x for x in out if x]
+
+
+def run_real(c: dict):
+    """A session of SCPI exchanges through ScpiProtocol over a REAL transport object.  -> ([], [], clause, info)
+    Oracle only (no model line: the Lean SCPI model sits on the transport contract, which is C13's theorem about these
+    classes): the device decodes each command, the driver receives exactly each reply, whatever the recv boundaries."""
+    env = _real_env()
+    from qmi.core.scpi_protocol import ScpiProtocol
+    from qmi.core.transport import create_transport
+    kind = c["tr"]
+    ct, rt = bytes(c["ct"]), bytes(c["rt"])
+    dev = env["PieceDevice"]()
+    info = {"nontrivial": True, "class": kind}
+    clause = None
+    with env["Env"](dev):
+        tr = create_transport(env["E"].KINDS[kind])
+        try:
+            tr.open()
+            proto = ScpiProtocol(tr, ct.decode("ascii"), rt.decode("ascii"))
+            for i, ex in enumerate(c["ex"]):
+                payload = unhx(ex["reply"])
+                cmd = ex["cmd"]
+                if ex["op"] == "ask":
+                    stream = payload + rt
+                else:
+                    stream = ref_block_encode(payload, ex.get("digits")) + rt
+                dev.next_reply = _cut(stream, ex.get("cuts", []))
+                sent0 = len(dev.tx)
+                try:
+                    if ex["op"] == "ask":
+                        got = proto.ask(cmd, timeout=ex.get("to", 1))
+                        want = payload.decode("ascii")
+                    else:
+                        proto.write(cmd)
+                        got = proto.read_binary_data(timeout=ex.get("to", 1))
+                        want = payload
+                except BaseException as e:  # noqa
+                    clause = f"exchange-raised:{type(e).__name__}"
+                    info["at"] = i
+                    break
+                if bytes(dev.tx[sent0:]) != cmd.encode("ascii") + ct:
+                    clause = "device-sees-different-command"
+                elif got != want:
+                    # what came back instead: the previous reply (stale), a glued or a cut one?
+                    prev = [unhx(e2["reply"]) for e2 in c["ex"][:i]]
+                    g = got.encode("latin1") if isinstance(got, str) else bytes(got)
+                    clause = "driver-receives-previous-reply" if g in prev else "driver-receives-different-reply"
+                elif dev.pending() or getattr(tr, "_read_buffer", b""):
+                    clause = "bytes-left-behind-after-reply"
+                if clause:
+                    info["at"] = i
+                    break
+        finally:
+            try:
+                if tr._is_open:
+                    tr.close()
+            except BaseException:  # noqa
+                pass
+    if clause:
+        ex = c["ex"][info.get("at", 0)]
+        info["desc"] = (f"ScpiProtocol over the real {kind} transport, response terminator {rt!r}: exchange #{info.get('at', 0)} "
+                        f"({ex['op']} {ex['cmd']!r}, reply {unhx(ex['reply'])!r} delivered in pieces cut at {ex.get('cuts', [])}) "
+                        f"of {len(c['ex'])}")
+    return [], [], clause, info
+
+
+def _real_sessions(level: int):
+    """fixed corpus: every single cut of every reply stream, all 2-cut splittings of the short ones, all-single-byte
+    delivery; 1-, 2- and 3-byte terminators; terminator bytes inside the payload; multi-ask sessions on one transport"""
+    terms = [[10], [13, 10], [59, 13, 10]]
+    kinds = ["tcp", "udp", "serial"]
+    for kind in kinds:
+        for rt in terms:
+            brt = bytes(rt)
+            # replies with parts of the terminator inside
+            a = b"+1.25" + brt[:-1] * (len(brt) > 1) + b"E0"
+            b = brt[1:] + b"OK" + brt[:1] * (len(brt) > 1) if len(brt) > 1 else b"OK"
+            if (b + brt).find(brt) != len(b):
+                b = b"OK" + brt[:1]
+            blk = b"#" + brt + b"\x00\xff" + brt[:1]
+            sa, sb = a + brt, b + brt
+            sblk = ref_block_encode(blk) + brt
+            def sess(cuts_a, cuts_b=(), cuts_blk=()):
+                return {"kind": "t.sess", "tr": kind, "ct": [10], "rt": rt, "ex": [
+                    {"op": "ask", "cmd": "A?", "reply": hx(a), "cuts": list(cuts_a)},
+                    {"op": "ask", "cmd": "B?", "reply": hx(b), "cuts": list(cuts_b)},
+                    {"op": "bin", "cmd": "C?", "reply": hx(blk), "cuts": list(cuts_blk)},
+                    {"op": "ask", "cmd": "A?", "reply": hx(a), "cuts": list(cuts_a)}]}
+            for k in range(1, len(sa)):
+                yield sess([k])
+            for k in range(1, len(sb)):
+                yield sess([], [k])
+            for k in range(1, len(sblk)):
+                yield sess([], [], [k])
+            yield sess(range(1, len(sa)), range(1, len(sb)), range(1, len(sblk)))
+            pairs = list(itertools.combinations(range(1, len(sb)), 2))
+            for k1, k2 in pairs if level >= 1 else pairs[::2]:
+                yield sess([], [k1, k2])
+            if level >= 1:
+                for k1, k2 in itertools.combinations(range(1, len(sa)), 2):
+                    yield sess([k1, k2])
+    # message-based / single-byte-terminator transports: the real classes on the endpoints that exist
+    # (block reads need byte-stream semantics of read(n); these two transports are message based, so `ask` only.  The
+    # USBTMC endpoint delivers a message whole — its splitting into transfers is what the u.* cases are about.)
+    yield {"kind": "t.sess", "tr": "usbtmc", "ct": [10], "rt": [10], "ex": [
+        {"op": "ask", "cmd": "*IDN?", "reply": hx(b"QMI,fake,1"), "cuts": []},
+        {"op": "ask", "cmd": "V?", "reply": hx(b"+1.5"), "cuts": []}]}
+    idn = b"QMI,fake\r,1"
+    for k in range(0, len(idn) + 1):
+        yield {"kind": "t.sess", "tr": "vxi11", "ct": [10], "rt": [10], "ex": [
+            {"op": "ask", "cmd": "*IDN?", "reply": hx(idn), "cuts": [k] if k else []},
+            {"op": "ask", "cmd": "V?", "reply": hx(b"+1.5"), "cuts": []},
+            {"op": "ask", "cmd": "*IDN?", "reply": hx(idn), "cuts": list(range(1, k + 1))}]}
+
+
+def gen_real(rng) -> dict:
+    kind = rng.choice(["tcp", "tcp", "udp", "serial"])
+    rt = rng.choice([[10], [13, 10], [13, 10], [59, 13, 10], [13], [10, 10], [97, 98, 99]])
+    brt = bytes(rt)
+    ex = []
+    for _ in range(rng.randint(1, 5)):
+        if rng.random() < 0.7:
+            n = rng.choice([0, 1, 2, 3, 5, 9, 20])
+            r = bytes(rng.choice(b"+-.0123456789E" + brt * 2) & 0x7F for _ in range(n))
+            while (r + brt).find(brt) != len(r):
+                i = r.find(brt[:1])
+                r = r[:i] + b"x" + r[i + 1:]
+            op = {"op": "ask", "cmd": rng.choice(["*IDN?", "M?", "A:B 1;C?"]), "reply": hx(r)}
+            total = len(r) + len(brt)
+        else:
+            n = rng.choice([0, 1, 2, 9, 10, 11, 30, 600])
+            d = _bytes(rng, n, b"#\n\r0129\x00\xff" + brt)
+            op = {"op": "bin", "cmd": "CURV?", "reply": hx(d)}
+            if rng.random() < 0.3:
+                op["digits"] = rng.randint(max(1, len(str(n))), 9)
+            total = len(ref_block_encode(d, op.get("digits"))) + len(brt)
+        m = rng.random()
+        if m < 0.2:
+            op["cuts"] = []
+        elif m < 0.5:
+            op["cuts"] = [max(1, total - rng.randint(0, len(brt) + 1))]          # in or next to the terminator
+        elif m < 0.8:
+            op["cuts"] = sorted({rng.randint(1, max(1, total - 1)) for _ in range(rng.randint(1, 3))})
+        else:
+            op["cuts"] = list(range(1, total)) if total < 40 else [511, 512, 513]
+        ex.append(op)
+    return {"kind": "t.sess", "tr": kind, "ct": rng.choice([[10], [13, 10]]), "rt": rt, "ex": ex}
+
+
 def run_case(c: dict):
+    if c["kind"] == "t.sess":
+        return run_real(c)
     return run_scpi(c) if c["kind"].startswith("s.") else run_usb(c)
 
 
@@ -1538,6 +1774,8 @@ def gen_usb(rng, big: bool) -> dict:
 
 def _input_class(c: dict) -> str:
     k = c["kind"]
+    if k == "t.sess":
+        return f"{c['tr']}:term{len(c['rt'])}"
     if k == "u.write":
         n, mts = len(unhx(c["data"])), c["mts"]
         if c.get("fault"):
@@ -1568,6 +1806,26 @@ def _shrink(c: dict, clause: str) -> dict:
         except BaseException:  # noqa
             return False
     cur = dict(c)
+    if cur["kind"] == "t.sess":
+        changed = True
+        while changed:
+            changed = False
+            for i in range(len(cur["ex"])):
+                trial = {**cur, "ex": cur["ex"][:i] + cur["ex"][i + 1:]}
+                if trial["ex"] and bad(trial):
+                    cur, changed = trial, True
+                    break
+            else:
+                for i, ex in enumerate(cur["ex"]):
+                    for j in range(len(ex.get("cuts", []))):
+                        ex2 = {**ex, "cuts": ex["cuts"][:j] + ex["cuts"][j + 1:]}
+                        trial = {**cur, "ex": cur["ex"][:i] + [ex2] + cur["ex"][i + 1:]}
+                        if bad(trial):
+                            cur, changed = trial, True
+                            break
+                    if changed:
+                        break
+        return cur
     for key in ("data", "reply", "pending", "rx", "cmd"):
         if key not in cur:
             continue
@@ -1593,7 +1851,9 @@ def _shrink(c: dict, clause: str) -> dict:
 
 def _failure(c: dict, clause: str) -> Failure:
     small = _shrink(c, clause)
-    line, out, _, _ = run_case(small)
+    line, out, _, info = run_case(small)
+    if info.get("desc"):
+        line, out = info["desc"], clause
     return Failure(signature=_signature(small, clause),
                    summary=f"{clause}: `{str(line)[:300]}` -> `{str(out)[:300]}`",
                    replay={"case": small, "clause": clause})
@@ -1635,7 +1895,7 @@ class C15A(Prop):
                 lines.append(line)
                 outs.append(out)
                 kept.append(c)
-            res.note_case(line, nontrivial=info.get("nontrivial", True))
+            res.note_case(line if line else repr(c), nontrivial=info.get("nontrivial", True))
             res.count("kind_" + c["kind"])
             res.count(f"class_{c['kind']}_{_input_class(c)}")
             if "class" in info:
@@ -1677,6 +1937,8 @@ class C15A(Prop):
         n_scpi = ctx.scale(80000, 700000)
         n_usb = ctx.scale(100000, 900000)
         self._batch(ctx, list(_systematic(ctx.scale(0, 1))), res, "systematic")       # the fixed corpus, first on every seed
+        self._batch(ctx, list(_real_sessions(ctx.scale(0, 1))), res, "real-transport-sessions")
+        self._batch(ctx, [gen_real(ctx.rng) for _ in range(ctx.scale(3000, 40000))], res, "real-transport-random")
         self._batch(ctx, [gen_scpi(ctx.rng, big) for _ in range(n_scpi)], res, "Scpi")
         self._batch(ctx, [gen_usb(ctx.rng, big) for _ in range(n_usb)], res, "Usbtmc")
         res.assumptions.append("ScpiProtocol is given a transport that honours the QMI_Transport contract (C13); "
@@ -1718,7 +1980,9 @@ class C15A(Prop):
 
     def replay(self, ctx: Ctx, rp: dict):
         c = rp["case"]
-        line, out, clause, _ = run_case(c)
+        line, out, clause, info = run_case(c)
+        if info.get("desc"):
+            line, out = info["desc"], clause
         if clause:
             return Failure(_signature(c, clause), f"{clause}: `{str(line)[:300]}` -> `{str(out)[:300]}`", rp)
         return None
